@@ -234,3 +234,87 @@ func loopPos(b *ssa.BasicBlock) (pos tokenPos) {
 	}
 	return 0
 }
+
+// seqStep is one required call in an ordered sequence.
+type seqStep struct {
+	name string
+	objs []*types.Func
+}
+
+// sequenceOnSuccess decides (A3): on every path of fn to a success return the
+// steps occur, in this order, each step's error result (if it has one) is
+// tested before the next step, and — per loop iteration, when the steps lie in
+// a loop — step i+1 is unreachable from the loop header without passing step i.
+func sequenceOnSuccess(c *an.Ctx, id, rule string, fn *ssa.Function, steps []seqStep, requireOnSuccess bool) {
+	calls := make([][]ssa.Instruction, len(steps))
+	for i, s := range steps {
+		calls[i] = callsIn(fn, s.objs...)
+		if len(calls[i]) == 0 {
+			c.Violate(fmt.Sprintf("%s|%s|%s", id, an.FuncName(fn), s.name), rule, c.P.Rel(fn.Pos()), "required call "+s.name+" not found in "+an.FuncName(fn))
+			return
+		}
+	}
+	for i, s := range steps {
+		key := fmt.Sprintf("%s|%s|%s", id, an.FuncName(fn), s.name)
+		if requireOnSuccess {
+			if ok, why := an.MustPassToSuccess(c.P, fn, calls[i]); !ok {
+				c.Violate(key+"|on-every-success-path", rule, c.P.Rel(calls[i][0].Pos()), why)
+				continue
+			}
+		}
+		if i+1 < len(steps) {
+			nextKey := fmt.Sprintf("%s|%s|%s<%s", id, an.FuncName(fn), s.name, steps[i+1].name)
+			ok, why := an.MustPass(c.P, fn, calls[i], calls[i+1], nil)
+			// per iteration
+			if ok {
+				cut := map[ssa.Instruction]bool{}
+				for _, k := range calls[i] {
+					cut[k] = true
+				}
+				for _, e := range an.BackEdges(fn) {
+					body := an.LoopBlocks(e[0], e[1])
+					for _, nx := range calls[i+1] {
+						if !body[nx.Block()] {
+							continue
+						}
+						q := &an.Query{Fn: fn, Cut: cut, Start: e[1].Instrs[0]}
+						if q.Run().Reaches(nx) {
+							ok, why = false, fmt.Sprintf("within an iteration of the loop at %s, %s is reachable without passing %s", c.P.Rel(loopPos(e[1])), steps[i+1].name, s.name)
+						}
+					}
+				}
+			}
+			// error of step i tested before step i+1
+			if ok {
+				var gs []*an.Guard
+				for _, o := range s.objs {
+					if o != nil && len(an.DefaultFailModes(o.Type().(*types.Signature))) > 0 {
+						gs = append(gs, an.GuardForFuncs(s.name, o))
+					}
+				}
+				if len(gs) > 0 {
+					set := map[ssa.Instruction]bool{}
+					for _, k := range calls[i+1] {
+						set[k] = true
+					}
+					v := an.Guarded(c.P, fn, gs, func(in ssa.Instruction) bool { return set[in] }, false)
+					if !v.Holds {
+						ok, why = false, fmt.Sprintf("%s is reachable although %s failed: %s", steps[i+1].name, s.name, v.Witness)
+					}
+				}
+			}
+			c.Check(ok, nextKey, rule, c.P.Rel(calls[i+1][0].Pos()), why)
+		}
+		c.Hold(key, rule, c.P.Rel(calls[i][0].Pos()), "")
+	}
+}
+
+func step(c *an.Ctx, name string, quals ...string) seqStep {
+	s := seqStep{name: name}
+	for _, q := range quals {
+		if o := mustObj(c, q); o != nil {
+			s.objs = append(s.objs, o)
+		}
+	}
+	return s
+}
